@@ -71,7 +71,17 @@ def check_C02(ctx):
     # action-level binding: step logs of the instrumented pump replayed through the actions of LiveEvents.tla
     mism += pump_traces(ctx, allcases, "TR_LiveEvents", 10 if q else 2, None)
     classify_mismatches(ctx, mism, recs, c02_matchers(), "from_str(aliased document) differs from the alias-free expansion required by YamlModel!RequiredTree")
+    # typed targets: the schema family / random schemas of C05, each document read once alias-free and once with one sub-node
+    # (value, item or scalar key) reached through an alias; TV_TypedAlias checks the two texts are expansion-related and the reads agree
+    arecs = ctx.path("typed_alias.ndjson")
+    st3 = run_vh(ctx, ["c05a", "--out", arecs, "--random", 4000 if q else 80000, "--seed", ctx.seed])
+    ctx.notes["typed_alias_family"] = st3
+    ctx.evaluations += st3["records"]
+    amism = run_tv(ctx, "TV_TypedAlias", arecs, timeout=3000)
+    classify_mismatches(ctx, amism, arecs, {}, "a typed read through an alias differs from the read of the copy (TV_TypedAlias)")
     return finish(ctx, "model_checking",
+                  "typed family: documents matching / nearly matching the C05 schemas (options, tuples, structs, maps, enums in all notations) "
+                  "read alias-free and with one sub-node moved behind an anchor or aliased in place; "
                   "cases: every well-formed document up to MaxEv events over 2 anchor names (re-definition allowed) "
                   "enumerated by TLC's BFS over the generator actions, rendered in flow and block style, plus random "
                   "documents up to 40/80 events with 3 names; non-trivial = distinct rendered text containing at least one alias",
@@ -205,6 +215,15 @@ def mapaccess_check(ctx, which):
     tmism = run_tv(ctx, "TR_MapAccess", trecs, label="TR_MapAccess", timeout=3000, invariants=["Count"], spec="TrSpec")
     classify_mismatches(ctx, tmism, trecs, {},
                         "a step of the mapping access loop is not a step of MapAccessMachine (merge batches / duplicate decision / skip)")
+    if which == "C03":
+        # typed targets: a mapping at a struct / map position of the C05 schemas, written in full and with some entries supplied
+        # through `<<` (inline or anchored sources, one or two, now and then shadowed by an own key): the two typed reads must agree
+        mrecs = ctx.path("typed_merge.ndjson")
+        st4 = run_vh(ctx, ["c05m", "--out", mrecs, "--random", 12000 if q else 150000, "--seed", ctx.seed])
+        ctx.notes["typed_merge_family"] = st4
+        ctx.evaluations += st4["records"]
+        mm = run_tv(ctx, "TV_TypedMerge", mrecs, timeout=3000)
+        classify_mismatches(ctx, mm, mrecs, {}, "a typed read of a mapping with merge keys differs from the read of the mapping written out in full (TV_TypedMerge)")
     classify_mismatches(ctx, mism, recs, ma_matchers(),
                         "observed mapping delivery differs from MapAccess!Delivered (merge precedence / duplicate-key policy)")
     rule = ("cases: every root mapping up to MaxEv events over keys {a, b, <<} (quoted/plain variants, sequence keys for C04) "
